@@ -724,30 +724,46 @@ fn c05_fuse(v: &Value) -> Value {
 /// value together with a fusable twin
 fn c05_select(v: &Value) -> Value {
     let m = u(&v["m"]) as u32;
-    let mut f = mk_filter(m, FilterPart::Simple("a".into()), None, if b(&v["has_tag"]) { Some("a") } else { None });
-    if b(&v["has_d"]) {
-        f.opt_domains = Some(vec![7]);
-    }
-    if b(&v["has_n"]) {
-        f.opt_not_domains = Some(vec![9]);
-    }
-    let mut twin = mk_filter(m, FilterPart::Simple("b".into()), None, None);
-    twin.id = f.id.wrapping_add(1);
+    let routing = NetworkFilterMask::GENERIC_HIDE | NetworkFilterMask::BAD_FILTER | NetworkFilterMask::ALSO_BLOCK_REDIRECT | NetworkFilterMask::UNMATCHED
+        | NetworkFilterMask::IS_REMOVEPARAM | NetworkFilterMask::IS_REDIRECT | NetworkFilterMask::IS_CSP | NetworkFilterMask::IS_HOSTNAME_ANCHOR
+        | NetworkFilterMask::IS_REGEX | NetworkFilterMask::IS_COMPLETE_REGEX | NetworkFilterMask::IS_HOSTNAME_REGEX;
     let r = catch_unwind(AssertUnwindSafe(|| {
         let mut diffs = 0;
-        for (url, src, tags) in [("https://x.com/a", None, false), ("https://x.com/b", None, false), ("https://x.com/a", Some(vec![7u64]), true), ("https://x.com/b", Some(vec![9u64]), true)] {
-            for rt in [RequestType::Script, RequestType::Document, RequestType::Image] {
-                let req = mk_request(url, "x.com", rt, false, true, true, src.clone());
-                let run = |opt: bool| {
-                    let mut bl = blocker_of(vec![f.clone(), twin.clone()], opt);
-                    if tags {
-                        bl.use_tags(&["a"]);
+        for clear in [false, true] {
+            // the eligibility decision does not depend on the routing / pattern-kind bits; with them cleared the two
+            // rules land in lists a network query shows (next to a catch-all blocking rule for exception masks)
+            let mask = if clear { (NetworkFilterMask::from_bits_retain(m) & !routing).bits() } else { m };
+            let mut f = mk_filter(mask, FilterPart::Simple("ads/a".into()), None, if b(&v["has_tag"]) { Some("a") } else { None });
+            // two listed domains and a shared pattern token ("ads"): a single included domain, or a pattern without tokens,
+            // would file the two rules under different bucket keys and they would never meet in the optimiser
+            if b(&v["has_d"]) {
+                f.opt_domains = Some(vec![7, 8]);
+            }
+            if b(&v["has_n"]) {
+                f.opt_not_domains = Some(vec![9]);
+            }
+            f.id = 1;
+            let mut twin = mk_filter(mask, FilterPart::Simple("ads/b".into()), None, None);
+            twin.id = 2;
+            let mut catch_all = mk_filter((NetworkFilterMask::DEFAULT_OPTIONS | NetworkFilterMask::FROM_DOCUMENT).bits(), FilterPart::Empty, None, None);
+            catch_all.id = 424242;
+            for (url, src, tags) in [("https://x.com/ads/a", None, false), ("https://x.com/ads/b", None, false), ("https://x.com/ads/a", Some(vec![7u64]), true), ("https://x.com/ads/b", Some(vec![7u64]), true),
+                                     ("https://x.com/ads/a", Some(vec![9u64]), true), ("https://x.com/ads/b", Some(vec![9u64]), true), ("https://x.com/ads/b", Some(vec![5u64]), false)] {
+                for rt in [RequestType::Script, RequestType::Document, RequestType::Image] {
+                    for tp in [false, true] {
+                        let req = mk_request(url, "x.com", rt.clone(), false, true, tp, src.clone());
+                        let run = |opt: bool| {
+                            let mut bl = blocker_of(vec![f.clone(), twin.clone(), catch_all.clone()], opt);
+                            if tags {
+                                bl.use_tags(&["a"]);
+                            }
+                            let r = bl.check(&req, &ResourceStorage::default());
+                            (r.matched, r.important, r.exception.is_some(), r.redirect, bl.get_csp_directives(&req))
+                        };
+                        if run(false) != run(true) {
+                            diffs += 1;
+                        }
                     }
-                    let r = bl.check(&req, &ResourceStorage::default());
-                    (r.matched, r.important, r.exception.is_some(), r.redirect, bl.get_csp_directives(&req))
-                };
-                if run(false) != run(true) {
-                    diffs += 1;
                 }
             }
         }
